@@ -915,6 +915,9 @@ func (b *Builder) PatchConfig() ([]byte, error) {
 			logger.Debug(fmt.Sprintf("Host => %v", host))
 
 			HostPort = strings.Split(host, ":")
+			if len(HostPort) > 2 {
+				return nil, errors.New("invalid host (expected host or host:port): " + host)
+			}
 			host = HostPort[0]
 			if len(HostPort) > 1 {
 				/* seems like we specified host:port */
